@@ -5,7 +5,8 @@ from contracts.weakrefs import RemoveNoneReferents
 from contracts.workspace_io import CloseContract
 from contracts.histories import ApiHistories
 from contracts.reader import CONTRACTS as _R
-CONTRACTS = list(_H) + list(_T) + list(_R) + [RemoveRecursively, RemoveDataFromGroups, RemoveNoneReferents, CloseContract, ApiHistories]
+from contracts.alignment import CONTRACTS as _A
+CONTRACTS = list(_H) + list(_T) + list(_R) + list(_A) + [RemoveRecursively, RemoveDataFromGroups, RemoveNoneReferents, CloseContract, ApiHistories]
 
 MANIFEST = {
     "category": "other",
